@@ -378,6 +378,12 @@ def run(ctx, report):
             R10.violation(inst, 'imm-type:%s' % label.split()[0], '%s: the immediate is typed %s, the operand size is %s: encodings of that size (sign-extended imm8) are not offered'
                           % (label, imm_[1] if isinstance(imm_, tuple) else type(imm_).__name__, want), where(arch, asn), witness="asm_att('pushw $65535') lacks 66 6a ff")
 
+    # ---------------------------------------------------------------- D12 the ds: override the Intel rendering prints is read back (shared with C03.D3)
+    R12 = report.rule('C09.D12', 'the Intel rendering `SIZE PTR seg:[..]` is read back with its override whenever the default segment of the address is not that segment '
+                      '(ds: on every ebp / esp based address, also when base and index are the same register): the grammar action evaluated on segment x address shape', floor=40)
+    from .c03 import ptrformula_rule
+    ptrformula_rule(ctx, R12, X)
+
     # ---------------------------------------------------------------- D11 both renderings come from one object
     R11 = report.rule('C09.D11', 'rendering does not change the instruction: the Intel and the AT&T rendering of one decoded object describe the same instruction (shared with C12.D11)', floor=4)
     from .c12 import readonly_methods_rule
